@@ -396,10 +396,14 @@ class CasXmiDeserializer:
 
         # The offsets and the sofa reference of annotations are integers; other types are free to use these
         # feature names for values of any range, which are parsed according to their range later on
+        integer_names = []
         if typesystem.is_instance_of(AnnotationType, TYPE_NAME_ANNOTATION_BASE):
-            for name in (FEATURE_BASE_NAME_BEGIN, FEATURE_BASE_NAME_END, FEATURE_BASE_NAME_SOFA):
-                if name in attributes:
-                    attributes[name] = int(attributes[name])
+            integer_names.append(FEATURE_BASE_NAME_SOFA)
+        if typesystem.is_instance_of(AnnotationType, TYPE_NAME_ANNOTATION):
+            integer_names.extend([FEATURE_BASE_NAME_BEGIN, FEATURE_BASE_NAME_END])
+        for name in integer_names:
+            if name in attributes:
+                attributes[name] = int(attributes[name])
 
         # Arrays which were represented as nested elements in the XMI have so far have only been parsed into a Python
         # arrays. Now we convert them to proper UIMA arrays/lists
